@@ -1316,16 +1316,42 @@ def run_other_hosts(master, tier, nruns, workers):
     # field-type validation of the portable code types is written with assert
     configs = [(tag, exe, []) for tag, exe in core.host_pythons() if tag != me]
     configs.append((me + "-O", sys.executable, ["-O"]))
-    for tag, exe, flags in configs:
+    import threading
+
+    errs = []
+    each = max(2, workers // 3)
+
+    def one(tag, exe, flags):
         outp = os.path.join(W["rundir"], "sub-%s.json" % tag)
-        p = subprocess.run([exe] + flags + ["-B", "-s", os.path.join(core.VERIF_DIR, "sim", "main.py"), "C11", "--tier", tier,
-                            "--seed", str(master), "--runs", str(nruns), "--workers", str(workers), "--sub", outp],
-                           env=core.child_env(), stdout=subprocess.PIPE, stderr=subprocess.PIPE, timeout=3600)
-        if p.returncode != 0:
-            raise core.HarnessError("C11 on host %s failed (%d): %s" % (tag, p.returncode,
-                                                                       p.stderr.decode(errors="replace")[-600:]))
-        with open(outp) as f:
-            outs.append(json.load(f))
+        try:
+            p = subprocess.run([exe] + flags + ["-B", "-s", os.path.join(core.VERIF_DIR, "sim", "main.py"), "C11",
+                                "--tier", tier, "--seed", str(master), "--runs", str(nruns), "--workers", str(each),
+                                "--sub", outp],
+                               env=core.child_env(), stdout=subprocess.PIPE, stderr=subprocess.PIPE, timeout=3600)
+            if p.returncode != 0:
+                errs.append("C11 on host %s failed (%d): %s" % (tag, p.returncode,
+                                                                p.stderr.decode(errors="replace")[-600:]))
+                return
+            with open(outp) as f:
+                outs.append(json.load(f))
+        except Exception as e:
+            errs.append("C11 on host %s: %r" % (tag, e))
+
+    # two configurations at a time: each uses a third of the cores
+    sem = threading.Semaphore(3)
+
+    def guarded(*a):
+        with sem:
+            one(*a)
+
+    ths = [threading.Thread(target=guarded, args=c) for c in configs]
+    for t in ths:
+        t.start()
+    for t in ths:
+        t.join()
+    if errs:
+        raise core.HarnessError("; ".join(errs[:2]))
+    outs.sort(key=lambda o: o["host"])
     return outs
 
 
